@@ -319,6 +319,23 @@ def _oracle(tn, i, q):
     back = np.asarray(tn.ind_qtt_to_tt(b, q)).tolist()
     if back != list(i):
         return dict(what='ind_qtt_to_tt(ind_tt_to_qtt(i)) != i', input=[i, q], got=back, expected=list(i))
+    # argument forms: the same maps on ndarrays of every integer dtype that can hold the input (the result may need more bits
+    # than the input: bits fit in int8, the index they encode does not), single index and one-row / two-row batches
+    for dt in (np.int8, np.uint8, np.int16, np.int32, np.int64):
+        ba = np.array(b, dtype=dt)
+        for form, arg, exp_ in (('single', ba, list(i)), ('batch1', ba.reshape(1, -1), [list(i)]),
+                                ('batch2', np.vstack([ba, ba]), [list(i), list(i)])):
+            got = np.asarray(tn.ind_qtt_to_tt(arg, q)).tolist()
+            if got != exp_:
+                return dict(what=f'ind_qtt_to_tt on a {np.dtype(dt).name} array ({form}) does not invert ind_tt_to_qtt',
+                            input=[i, q], got=got, expected=exp_)
+        if max(i) <= np.iinfo(dt).max:
+            ia = np.array(i, dtype=dt)
+            for form, arg, exp_ in (('single', ia, exp), ('batch1', ia.reshape(1, -1), [exp]), ('batch2', np.vstack([ia, ia]), [exp, exp])):
+                got = np.asarray(tn.ind_tt_to_qtt(arg, n)).tolist()
+                if got != exp_:
+                    return dict(what=f'ind_tt_to_qtt on a {np.dtype(dt).name} array ({form}) is not the little-endian bit string',
+                                input=[i, q], got=got, expected=exp_)
     return None
 
 
@@ -396,6 +413,22 @@ def search(R, ctx, deep, hints):
         conv.append((Y, q, 0., 1e12))
         conv.append((Y, q, 1e-3, 2))
         conv.append(([G * 0 for G in Y], q, 1e-12, 100))
+    # smooth (function-sampled) data: square unfoldings inside core_tt_to_qtt that are really truncated
+    for q in ([4, 5] if not deep else [4, 5, 6]):
+        n = 2 ** q
+        x = np.linspace(0., 3., n)
+        for fs in ([np.sin(x)], [x * np.exp(-x)], [1 + x - 0.3 * x ** 2 + 0.01 * x ** 3], [np.sin(x), np.cos(2 * x)]):
+            r = len(fs)
+            for d in (1, 2):
+                if d == 1:
+                    if r > 1:
+                        continue
+                    Y = [fs[0].reshape(1, n, 1).copy()]
+                else:
+                    Y = [np.stack(fs, axis=-1).reshape(1, n, r).copy(), np.stack(fs[::-1], axis=0).reshape(r, n, 1).copy()]
+                for e in (1e-6, 1e-9):
+                    conv.append((Y, q, e, 1e12))
+                conv.append((Y, q, 1e-6, 3))
     for _ in range(150 if deep else 25):
         d, q = rng.randint(1, 3), rng.randint(1, 3)
         r = [1] + [rng.randint(1, 4) for _ in range(d - 1)] + [1]
